@@ -1,5 +1,6 @@
 import Rough.Driver.Codec
 import Rough.Driver.Merkle
+import Rough.Driver.Server
 open Rough Rough.Driver
 
 def dispatch (op : String) (args : List String) (impl : String) : Verdict :=
@@ -8,6 +9,7 @@ def dispatch (op : String) (args : List String) (impl : String) : Verdict :=
   | "disp" => opDisp args impl
   | "enc" => opEnc args impl
   | "merkle" => opMerkle args impl
+  | "srv" => opSrv args impl
   | _ => bad ("unknown op " ++ op)
 
 def handle (line : String) : String :=
